@@ -4,15 +4,16 @@ from .common import *
 from .tables import is_true, is_false
 
 EXPLANATION = (
-    'Static clauses: (R1) count_positions_inner has the perft-sum recurrence shape: result = number of legal moves '
-    'when depth == 0, otherwise that number plus the sum over ALL candidates (the loop leaves only when the '
-    'iterator is exhausted) of inner(depth-1, board after apply, opposite colour), each summand inside an '
-    'apply/undo bracket, accumulated with +=; (R2) the parallel top-level routine is the same recurrence: len + sum'
-    ' over a parallel iterator of inner(depth-1, clone after apply, opposite(player), fresh generator); (R3) the '
-    'driver (helpers of its module inlined) hands every call of the counting routine Color::White and a board that '
-    'is exactly the value Board::starting_position() returned, and that position has White to move; (R4) the per-'
-    "task generators answer independently of history (imports C02's cache-key rules when run under C02; the ep-key "
-    'defect that made depth 4 read 5,072,262 was C05.R3). The numbers themselves depend on C01 and are NOT decided.'
+    'Static clauses: (R1) count_positions_inner has the perft-sum recurrence shape: result = number of legal moves when depth == 0, '
+    'otherwise that number plus the sum over ALL candidates (the loop leaves only when the iterator is exhausted) of inner(depth-1, '
+    'board after apply, opposite colour), each summand inside an apply/undo bracket, accumulated with +=; (R2) the parallel top-level '
+    'routine is the same recurrence: len + sum over a parallel iterator of inner(depth-1, clone after apply, opposite(player), fresh '
+    'generator); (R3) the driver (helpers of its module inlined) hands every call of the counting routine Color::White and a board that'
+    ' is exactly the value Board::starting_position() returned, and that position has White to move; (R4) the per-task generators '
+    "answer independently of history (imports C02's cache-key rules when run under C02; the ep-key defect that made depth 4 read "
+    '5,072,262 was C05.R3). The numbers themselves depend on C01 and are NOT decided. (R5) the figure counts legal sequences only if '
+    'generation is exact: imports all clauses of C01; a counting twin of generate_moves (same cache discipline, returns the length) is '
+    'accepted at depth 0.'
 )
 ASSUMPTIONS = [
     "rayon's sum() over a parallel iterator adds every element exactly once",
